@@ -238,6 +238,8 @@ def compile_plan(plan, world, root):
             for k, v in sorted(kv.items()):
                 if k in ("mode", "perm"):
                     parts.append("%s=%o" % (k, v))
+                elif k == "nobtime":
+                    parts.append("nobtime=1")
                 else:
                     parts.append("%s=%d" % (k, v))
             lines.append("stat %d %s" % (ino(p), " ".join(parts)))
